@@ -187,7 +187,8 @@ fn decode_oneshot(bytes: &[u8]) -> Result<usize, String> {
 fn selftest_program(seed: u64) -> jxlgen::Program {
     let mut rng = rng::Rng::new(rng::derive(seed, 1, 0));
     let cfg = if seed % 3 == 0 { jxlgen::random::GenConfig::medium() } else { jxlgen::random::GenConfig::small() };
-    let cfg = cfg.swarm(&mut rng);
+    let mut cfg = cfg.swarm(&mut rng);
+    cfg.vardct = std::env::var("SELFTEST_VARDCT").is_ok();
     jxlgen::random::random_program(&mut rng, &cfg)
 }
 
